@@ -51,6 +51,7 @@ type Tx struct {
 	// rule scenarios: the proof is a Fabric artifact (endorsed broker response) "signer[!idx|!cc|!func|!sig]", e.g. "c0", "c1", "c0!idx"
 	Art      string `json:"art,omitempty"`
 	Promoted bool   `json:"promoted,omitempty"` // surface calls: method is promoted / not an entry point
+	Aim      string `json:"aim,omitempty"`      // surface calls: "self" (first argument names the caller) | "ownnode" (first argument names the node the calling audit admin is / was bound to) | ""
 }
 
 type Step struct {
@@ -505,7 +506,7 @@ func (r *runner) build(n *core.Node, t Tx) (pb.Transaction, map[string]interface
 			cls = "surface"
 		}
 		return tx, map[string]interface{}{"k": "invoke", "from": from.Addr.String(), "to": addr.String(), "cls": cls, "badsig": false, "m": t.M, "c": t.C,
-			"role": t.Role, "promoted": t.Promoted, "amtKind": "none", "amtNum": 0, "amt": ""}
+			"role": t.Role, "promoted": t.Promoted, "aim": t.Aim, "amtKind": "none", "amtNum": 0, "amt": ""}
 	}
 }
 
@@ -707,7 +708,7 @@ func (r *runner) observe(n *core.Node, res *core.BlockResult) map[string]interfa
 			}
 			rlist = append(rlist, m{"a": a.Addr.String(), "st": stt, "typ": typ})
 		}
-		for _, nm := range []string{"nvp1", "nvp2", "vp1"} {
+		for _, nm := range []string{"nvp1", "nvp2", "vp1", "nvp3"} {
 			rc := n.Query(constant.NodeManagerContractAddr.Address(), "GetNode", pb.String(n.Account(nm).Addr.String()))
 			var nd struct {
 				Status string `json:"status"`
@@ -1998,6 +1999,17 @@ func genSurface(rng *rand.Rand, name string, surf []lockstep.MethodInfo, frac in
 	for i := 0; i < 3; i++ {
 		p.Steps = append(p.Steps, Step{Step: "vote", Pid: 2, By: fmt.Sprintf("@admin%d", i), Ballot: "approve"})
 	}
+	// a second audit admin whose node has been logged out (the admin is frozen, waiting to be bound to another node), and a
+	// free node it could be bound to: binding is the governance admins' decision, not its own
+	np := 3
+	for _, sub := range [][]string{{"RegisterNode", "@nvp2", "nvpNode", "", "u64:0", "node2", "chainA", "r"}, {"RegisterNode", "@nvp3", "nvpNode", "", "u64:0", "node3", "chainA", "r"},
+		{"RegisterRole", "@aud2", "auditAdmin", "@nvp2", "r"}, {"LogoutNode", "@nvp2", "r"}} {
+		p.Steps = append(p.Steps, Step{Step: "submit", M: sub[0], By: "@admin0", Obj: "x", Args: sub[1:]})
+		for i := 0; i < 3; i++ {
+			p.Steps = append(p.Steps, Step{Step: "vote", Pid: np, By: fmt.Sprintf("@admin%d", i), Ballot: "approve"})
+		}
+		np++
+	}
 	p.Steps = append(p.Steps, Step{Step: "open", M: "FreezeService", Obj: "chainB:svc1"})
 	strs := []string{"chainA", "chainB", "chainA:svc1", "chainB:svc1", "svc:chainA:svc1", "svc:chainB:svc1", "svc:chainA:svc1-1356:chainB:svc1-2",
 		"svc:chainA:svc1-1356:chainB:svc1-1", "@proposal", "@admin0", "@admin1", "@admin-chainA", "@admin-chainB", "@u3",
@@ -2027,7 +2039,7 @@ func genSurface(rng *rand.Rand, name string, surf []lockstep.MethodInfo, frac in
 		}
 		return "", false // not constructible through the transaction encoding
 	}
-	roles := []struct{ role, acct string }{{"outsider", "u3"}, {"otheradmin", "admin-CHAINA"}, {"otheradmin", "admin-chainB"}, {"govadmin", "@admin1"}, {"nodeacct", "nvp1"}, {"frozenadmin", "@admin3"}, {"auditadmin", "aud1"}}
+	roles := []struct{ role, acct string }{{"outsider", "u3"}, {"otheradmin", "admin-CHAINA"}, {"otheradmin", "admin-chainB"}, {"govadmin", "@admin1"}, {"nodeacct", "nvp1"}, {"frozenadmin", "@admin3"}, {"auditadmin", "aud1"}, {"frozenaudit", "aud2"}}
 
 	var calls []Tx
 	combo := 0
@@ -2041,15 +2053,23 @@ func genSurface(rng *rand.Rand, name string, surf []lockstep.MethodInfo, frac in
 			tries := 2
 			if !mi.Promoted && !strings.HasPrefix(mi.M, "Get") && !strings.HasPrefix(mi.M, "Is") && !strings.HasPrefix(mi.M, "Count") {
 				tries = 10
-				if ro.role == "frozenadmin" { // its calls pass every check but the availability of the caller: more argument vectors
+				if ro.role == "frozenadmin" || ro.role == "frozenaudit" { // its calls pass every check but the availability of the caller: more argument vectors
 					tries = 30
 				}
 			}
 			for try := 0; try < tries; try++ {
 				var args []string
 				ok := true
-				for _, t := range mi.In {
+				for ai, t := range mi.In {
 					a, c := arg(t)
+					if (ro.role == "frozenaudit" || ro.role == "auditadmin") && t == "string" && try%2 == 1 {
+						// aimed at itself: the caller is the object of the call, the other names are nodes
+						if ai == 0 {
+							a = "@" + ro.acct
+						} else {
+							a = []string{"@nvp3", "@nvp1", "@nvp2", "@" + ro.acct, "r"}[(try/2+(ai-1)*(1+try/10))%5] // every name in every place
+						}
+					}
 					if !c {
 						ok = false
 						a = "x"
@@ -2061,11 +2081,28 @@ func genSurface(rng *rand.Rand, name string, surf []lockstep.MethodInfo, frac in
 					args = append(args, a)
 				}
 				_ = ok
-				calls = append(calls, Tx{K: "invoke", From: ro.acct, C: mi.C, M: mi.M, Args: args, Role: ro.role, Promoted: mi.Promoted})
+				aim := ""
+				if len(args) > 0 && strings.TrimPrefix(args[0], "@") == strings.TrimPrefix(ro.acct, "@") {
+					aim = "self"
+				} else if len(args) > 0 && ((ro.acct == "aud1" && args[0] == "@nvp1") || (ro.acct == "aud2" && args[0] == "@nvp2")) {
+					aim = "ownnode"
+				}
+				calls = append(calls, Tx{K: "invoke", From: ro.acct, C: mi.C, M: mi.M, Args: args, Role: ro.role, Promoted: mi.Promoted, Aim: aim})
 			}
 		}
 	}
 	rng.Shuffle(len(calls), func(i, j int) { calls[i], calls[j] = calls[j], calls[i] })
+	// operations a party may start on itself (Surface.tla: OpenTo) go last: they succeed by design and take the caller out of
+	// the status the reserved operations are tried in (a frozen audit admin that logs itself out is no longer waiting to be bound)
+	var first, last []Tx
+	for _, c := range calls {
+		if c.Aim != "" && (c.M == "ActivateRole" || c.M == "LogoutRole" || c.M == "LogoutNode") {
+			last = append(last, c)
+		} else {
+			first = append(first, c)
+		}
+	}
+	calls = append(first, last...)
 	for i := 0; i < len(calls); i += 3 {
 		j := i + 3
 		if j > len(calls) {
